@@ -389,6 +389,10 @@ func checkC15(tier, replay string) int {
 			}
 		}
 		cases = append(cases, c15Case{Label: "missing-file", FileKind: "missing"})
+		// a relative policy name that does not exist in the working directory, while files of that name exist elsewhere the
+		// command might look (next to its own executable, in the home directory, in /etc)
+		cases = append(cases, c15Case{Label: "missing-file/relative-name-exists-elsewhere", FileKind: "missing-relative"})
+		cases = append(cases, c15Case{Label: "missing-file/default-name-exists-elsewhere", FileKind: "missing-default"})
 		cases = append(cases, c15Case{Label: "directory", FileKind: "directory"})
 	}
 	var runs, ranTarget, refused, probes int64
@@ -462,6 +466,29 @@ func checkC15(tier, replay string) int {
 			target = []string{filepath.Join(dir, "no-such-program")}
 		}
 		argv := append([]string{sandbox, "-policy", pol}, c.ExtraArgs...)
+		sbx := sandbox
+		if c.FileKind == "missing-relative" || c.FileKind == "missing-default" {
+			// a private copy of the command with a permissive policy file of the same name right next to it (and in HOME)
+			name := "strict-policy.yml"
+			if c.FileKind == "missing-default" {
+				name = "seccomp.yml"
+			}
+			bdir := filepath.Join(dir, "bin")
+			os.MkdirAll(bdir, 0o755)
+			sbx = filepath.Join(bdir, "sandbox")
+			copyFile(sandbox, sbx)
+			os.Chmod(sbx, 0o755)
+			perm := "seccomp:\n  default_action: allow\n  syscalls:\n  - action: errno\n    names:\n    - getsid\n"
+			os.WriteFile(filepath.Join(bdir, name), []byte(perm), 0o644)
+			os.MkdirAll(filepath.Join(dir, "home"), 0o755)
+			os.WriteFile(filepath.Join(dir, "home", name), []byte(perm), 0o644)
+			os.MkdirAll(filepath.Join(dir, "cwd"), 0o755)
+			if c.FileKind == "missing-default" {
+				argv = []string{sbx}
+			} else {
+				argv = []string{sbx, "-policy", name}
+			}
+		}
 		argv = append(argv, target...)
 		for k := 1; k < c.Nest; k++ {
 			argv = append([]string{sandbox, "-policy", pol}, argv...)
@@ -474,7 +501,12 @@ func checkC15(tier, replay string) int {
 		if c.Unpriv {
 			argv = append([]string{"setpriv", "--reuid", "65534", "--regid", "65534", "--clear-groups"}, argv...)
 		}
-		r := runCmd(60*time.Second, []string{"PATH=/usr/bin:/bin"}, dir, argv...)
+		runDir, runEnv := dir, []string{"PATH=/usr/bin:/bin"}
+		if c.FileKind == "missing-relative" || c.FileKind == "missing-default" {
+			runDir = filepath.Join(dir, "cwd")
+			runEnv = append(runEnv, "HOME="+filepath.Join(dir, "home"))
+		}
+		r := runCmd(60*time.Second, runEnv, runDir, argv...)
 		atomic.AddInt64(&runs, 1)
 		_, merr := os.Stat(marker)
 		ran := merr == nil
@@ -555,7 +587,7 @@ func checkC15(tier, replay string) int {
 	ctx.Cov["runs_in_which_the_target_started"] = ranTarget
 	ctx.Cov["runs_that_must_be_refused"] = refused
 	ctx.Cov["probe_events_observed_by_the_target"] = probes
-	ctx.Cov["rule"] = "the built cmd/sandbox binary is run with a probe target (a separate program that first appends a marker line, then issues probe syscalls for every partition cell of the policy) on: 10 base policy files (one spelling all eight operations and the actions in non-canonical letter case, one whose first group ends with a conditional entry for a syscall the second group names unconditionally) (incl. two under which execve is not allowed: no target can be started) whole (root / uid 65534 / with -no-new-privs=false / non-existent target / nested inside an outer sandbox whose policy answers errno to seccomp(2), so that the kernel refuses the filter), every line prefix and every byte prefix inside the first and last rule (thorough: every byte prefix), 13 defect kinds per base plus an unknown name at every position where a syscall name stands, JSON renderings with operands that need all 64 bits (unknown action/default/syscall/operation, wrong key, no syscalls, non-YAML, tab indentation, empty, argument 6 / -1, non-numeric value, duplicate name), a policy compiling to > 4096 instructions, ten nested sandbox commands with a 4.0k-instruction policy (the kernel refuses one of them with ENOMEM), a policy whose first group needs long jumps (70 conditional entries) followed by a second group, files of 4 KiB to 1 MiB in which a comment block pushes the last group to byte offset L-1, L, L+1 for L in {4096, ..., 65536, 131072, 1 MiB}, a missing file and a directory; the same bytes are loaded by the harness through ucfg: if that fails, the policy is invalid or the kernel must refuse, the run must exit non-zero with no marker; otherwise the marker exists and the target's observations equal the reference decisions of the policy the file denotes"
+	ctx.Cov["rule"] = "the built cmd/sandbox binary is run with a probe target (a separate program that first appends a marker line, then issues probe syscalls for every partition cell of the policy) on: 10 base policy files (one spelling all eight operations and the actions in non-canonical letter case, one whose first group ends with a conditional entry for a syscall the second group names unconditionally) (incl. two under which execve is not allowed: no target can be started) whole (root / uid 65534 / with -no-new-privs=false / non-existent target / nested inside an outer sandbox whose policy answers errno to seccomp(2), so that the kernel refuses the filter), every line prefix and every byte prefix inside the first and last rule (thorough: every byte prefix), 13 defect kinds per base plus an unknown name at every position where a syscall name stands, JSON renderings with operands that need all 64 bits (unknown action/default/syscall/operation, wrong key, no syscalls, non-YAML, tab indentation, empty, argument 6 / -1, non-numeric value, duplicate name), a policy compiling to > 4096 instructions, ten nested sandbox commands with a 4.0k-instruction policy (the kernel refuses one of them with ENOMEM), a policy whose first group needs long jumps (70 conditional entries) followed by a second group, files of 4 KiB to 1 MiB in which a comment block pushes the last group to byte offset L-1, L, L+1 for L in {4096, ..., 65536, 131072, 1 MiB}, a missing file (also a relative and the default name that exist next to the command's executable and in HOME, but not in the working directory) and a directory; the same bytes are loaded by the harness through ucfg: if that fails, the policy is invalid or the kernel must refuse, the run must exit non-zero with no marker; otherwise the marker exists and the target's observations equal the reference decisions of the policy the file denotes"
 	ctx.Assumptions = []string{"a truncated file that still parses is a different valid policy and is judged as such", "probe syscalls ignore arguments", "fault points before exec are realised through inputs (file defects, kernel refusals), not by interrupting the sandbox process"}
 	if replay != "" {
 		return finishReplay(ctx)
